@@ -102,7 +102,7 @@ def gen_ovld(seed, index):
             kind = "resolve" if (rng.random() < 0.12 and not c.get("kw")) else "call"
             o = {"op": "call", "c": dict(c, kind=kind)}
             if child and rng.random() < 0.5:
-                o["on"] = "g"
+                o["on"] = rng.choice(["g", "gg"])
             ops.append(o)
             last_obs = c if rng.random() < 0.7 else None
             continue
@@ -198,11 +198,14 @@ def execute_ovld(scen):
                 g = h.ov.copy(linkback=True)
                 g.rename("g", "g")
                 h.w.funcs["g"] = g
+                gg = g.copy(linkback=True)  # and a linked grandchild
+                gg.rename("gg", "gg")
+                h.w.funcs["gg"] = gg
             trace.append("derive")
             continue
         if op["op"] == "call":
-            if op.get("on") == "g" and "g" in h.w.funcs:
-                out = h.w.call("g", op["c"])
+            if op.get("on") in ("g", "gg") and op["on"] in h.w.funcs:
+                out = h.w.call(op["on"], op["c"])
             else:
                 out = h.apply(op)
             ref = ref_outcomes(spec, regs, [op["c"]], scen["label"])[0]
@@ -224,8 +227,10 @@ def execute_ovld(scen):
                 violation = {"clause": "a valid change of the method set was refused",
                              "op_index": i, "op": op, "result": r, "symptom": "refused", "level": "ovld"}
                 break
-    if violation is None and "g" in h.w.funcs:
-        probes = [h.w.call("g", c) for c in scen["corpus"]]
+    for child_name in ("g", "gg"):
+        if violation is not None or child_name not in h.w.funcs:
+            continue
+        probes = [h.w.call(child_name, c) for c in scen["corpus"]]
         ref = ref_outcomes(spec, regs, scen["corpus"], scen["label"])
         if probes != ref:
             i = next(i for i, (a, b) in enumerate(zip(probes, ref)) if a != b)
